@@ -2,7 +2,7 @@
   C01, value level: the transcribed primitives agree with the reference semantics for all
   operand values of all kinds.
 -/
-import GV.Eval.Val
+import GV.Eval.MathIR
 namespace GV.Eval
 
 theorem hp_int (k : K) : hasPrefix k "int" = (k.isSigned || k == .iface) := by cases k <;> decide
@@ -57,14 +57,14 @@ def refNum (op : AOp) (a b : Val) : Out Val :=
      | p, q => .ok (.f .float64 (op.flt p.toFloat q.toFloat)))
   | _, _ => .err
 
+open MathIR in
 theorem dispatch_correct (op : AOp) (a b : Val) (ha : a.WK = true) (hb : b.WK = true) :
-    (goDispatch op a b).recovered = refNum op a b := by
+    (runRows op a b stdRows).recovered = refNum op a b := by
   obtain ⟨a1, a2, a3, a4⟩ := tests_of_wk a ha
   obtain ⟨b1, b2, b3, b4⟩ := tests_of_wk b hb
-  unfold goDispatch
-  simp only [a1, a2, a3, b1, b2, b3]
+  simp only [runRows, stdRows, a1, a2, a3, b1, b2, b3]
   cases a <;> cases b <;>
-    simp [refNum, Val.num?, Val.int?, Val.uint?, Val.float?, Out.recovered, NumClass.toFloat] <;>
+    simp [refNum, Val.num?, Val.int?, Val.uint?, Val.float?, Out.recovered, NumClass.toFloat, evalOpd, applyOp] <;>
     (repeat' split) <;> simp_all [Out.recovered]
 
 theorem refArith_eq (op : AOp) (a b : Val) :
@@ -76,8 +76,10 @@ theorem refArith_eq (op : AOp) (a b : Val) :
   unfold refArith refNum
   cases a <;> cases b <;> simp [Val.num?] <;> (try split) <;> simp_all
 
-/-- **C01 (arithmetic).** For all operand values of all kinds, `core.Add/Sub/Mul/Div`, with a
-    panic turned into an error by the enclosing `recover`, compute the reference semantics. -/
+open MathIR in
+/-- **C01 (arithmetic).** For all operand values of all kinds, `core.Add/Sub/Mul/Div` (the table
+    interpreter over `MathIR.expected`), with a panic turned into an error by the enclosing
+    `recover`, compute the reference semantics. -/
 theorem arith_correct (op : AOp) (a b : Val) (ha : a.WK = true) (hb : b.WK = true) :
     (goArith op a b).recovered = refArith op a b := by
   have hd := dispatch_correct op a b ha hb
@@ -86,34 +88,55 @@ theorem arith_correct (op : AOp) (a b : Val) (ha : a.WK = true) (hb : b.WK = tru
   rw [refArith_eq]
   cases op
   · -- add
-    simp only [goArith, a4, b4]
+    simp only [goArith, tblArith, Tables.fn, expected, runFn, runGuards, a4, b4, Bool.true_and]
     cases a <;> cases b <;> simp_all [Val.str, Out.recovered]
-  · simp only [goArith]
+  · simp only [goArith, tblArith, Tables.fn, expected, runFn, runGuards, Bool.false_and]
     cases a <;> cases b <;> simp_all [refNum, Val.num?]
-  · simp only [goArith]
+  · simp only [goArith, tblArith, Tables.fn, expected, runFn, runGuards, Bool.false_and]
     cases a <;> cases b <;> simp_all [refNum, Val.num?]
   · -- div
     have hnone : b.num? = none → refNum .div a b = .err := by
       intro h; unfold refNum; rw [h]; cases a.num? <;> rfl
     have hanone : a.num? = none → refNum .div a b = .err := by
       intro h; unfold refNum; rw [h]
-    simp only [goArith, goDivGuard, b1, b2, b3]
+    simp only [goArith, tblArith, Tables.fn, expected, runFn, runGuards, selZero, Bool.false_and, b1, b2, b3]
     cases b with
     | i k y =>
       simp only [Val.int?, Val.num?, NumClass.isZero]
       by_cases hy : (y == 0) = true
       · cases a <;> simp_all [Out.recovered, refNum, Val.num?]
-      · cases a <;> simp_all [Out.recovered, refNum, Val.num?]
+      · have h0 : (y == 0) = false := by simpa using hy
+        cases a <;> simp_all [Out.recovered, refNum, Val.num?] <;>
+          first
+            | done
+            | (have h0' : (y == 0) = false := by simp [*]
+               simp only [h0']; exact hd)
+            | (have h0' : (y == 0) = false := by simp [*]
+               simp only [h0']; simp_all)
     | u k y =>
       simp only [Val.uint?, Val.num?, NumClass.isZero]
       by_cases hy : (y == 0) = true
       · cases a <;> simp_all [Out.recovered, refNum, Val.num?]
-      · cases a <;> simp_all [Out.recovered, refNum, Val.num?]
+      · have h0 : (y == 0) = false := by simpa using hy
+        cases a <;> simp_all [Out.recovered, refNum, Val.num?] <;>
+          first
+            | done
+            | (have h0' : (y == 0) = false := by simp [*]
+               simp only [h0']; exact hd)
+            | (have h0' : (y == 0) = false := by simp [*]
+               simp only [h0']; simp_all)
     | f k y =>
       simp only [Val.float?, Val.num?, NumClass.isZero]
       by_cases hy : (y == 0.0) = true
       · cases a <;> simp_all [Out.recovered, refNum, Val.num?]
-      · cases a <;> simp_all [Out.recovered, refNum, Val.num?]
+      · have h0 : (y == 0.0) = false := by simpa using hy
+        cases a <;> simp_all [Out.recovered, refNum, Val.num?] <;>
+          first
+            | done
+            | (have h0' : (y == 0.0) = false := by simp [*]
+               simp only [h0']; exact hd)
+            | (have h0' : (y == 0.0) = false := by simp [*]
+               simp only [h0']; simp_all)
     | s y => cases a <;> simp_all [Out.recovered, refNum, Val.num?]
     | b y => cases a <;> simp_all [Out.recovered, refNum, Val.num?]
     | nil => cases a <;> simp_all [Out.recovered, refNum, Val.num?]
